@@ -78,7 +78,12 @@ func UploadLookupFile(ctx *fasthttp.RequestCtx) {
 		return
 	}
 
-	dstPath := filepath.Join(fullLookupsDir, fileName)
+	dstPath, err := config.ResolveLookupFile(fileName)
+	if err != nil {
+		log.Errorf("UploadLookupFile: %v", err)
+		ctx.Error("Invalid file name", fasthttp.StatusBadRequest)
+		return
+	}
 
 	// Check if file exists and handle overwrite
 	fileExists := false
@@ -168,8 +173,11 @@ func GetAllLookupFiles(ctx *fasthttp.RequestCtx) {
 func GetLookupFile(ctx *fasthttp.RequestCtx) {
 	lookupFilename := utils.ExtractParamAsString(ctx.UserValue("lookupFilename"))
 
-	lookupsDir := config.GetLookupPath()
-	filePath := filepath.Join(lookupsDir, lookupFilename)
+	filePath, err := config.ResolveLookupFile(lookupFilename)
+	if err != nil {
+		ctx.Error("Invalid file name", fasthttp.StatusBadRequest)
+		return
+	}
 
 	file, err := os.Open(filePath)
 	if err != nil {
@@ -196,10 +204,13 @@ func GetLookupFile(ctx *fasthttp.RequestCtx) {
 func DeleteLookupFile(ctx *fasthttp.RequestCtx) {
 	lookupFilename := utils.ExtractParamAsString(ctx.UserValue("lookupFilename"))
 
-	lookupsDir := config.GetLookupPath()
-	filePath := filepath.Join(lookupsDir, lookupFilename)
+	filePath, err := config.ResolveLookupFile(lookupFilename)
+	if err != nil {
+		ctx.Error("Invalid file name", fasthttp.StatusBadRequest)
+		return
+	}
 
-	err := os.Remove(filePath)
+	err = os.Remove(filePath)
 	if err != nil {
 		if os.IsNotExist(err) {
 			ctx.Error("File not found", fasthttp.StatusNotFound)
